@@ -462,6 +462,16 @@ fn body_decls(out: &mut Vec<Decl>) {
     push(at2, vec![], &elem);
     let at3 = "#[darling(attributes(a), forward_attrs(doc))] struct S { attrs: Vec<syn::Attribute>, b: u8 }";
     push(at3, vec![], &elem);
+    // every written form of forward_attrs counts as "set": an empty list, a trailing comma,
+    // several names, paths; with or without `attributes(..)`, in either order
+    for fw in ["forward_attrs()", "forward_attrs(doc,)", "forward_attrs(doc, allow, cfg)", "forward_attrs(a::b)", "forward_attrs(a)"] {
+        push(&format!("#[darling(attributes(a), {fw})] struct S {{ attrs: Vec<syn::Attribute>, b: u8 }}"), vec![], &elem);
+        push(&format!("#[darling({fw}, attributes(a))] struct S {{ b: u8, attrs: Vec<syn::Attribute> }}"), vec![], &elem);
+        push(&format!("#[darling({fw})] #[darling(attributes(a))] struct S {{ #[darling(with = f)] attrs: Vec<u8> }}"), vec![], &elem);
+        push(&format!("#[darling({fw})] struct S {{ attrs: Vec<syn::Attribute> }}"), vec![], &[1, 2, 3, 4]);
+        // without an `attrs` field it is harmless
+        push(&format!("#[darling(attributes(a), {fw})] struct S {{ b: u8 }}"), vec![], &elem);
+    }
     // on FromMeta `attrs` is an ordinary field
     push("struct S { attrs: u8, ident: u8 }", vec![], &[0]);
     // FromAttributes needs attributes(..)
